@@ -873,7 +873,11 @@ func (g *vProg) plan() *vPlan {
 				if q.n == 0 && rng.Intn(4) > 0 { // element of a pcommon.Slice: make it a composite value (only those can alias)
 					v := q.node.(pcommon.Value)
 					tag := 5 + rng.Intn(3)
-					return &vPlan{term: fmt.Sprintf("OLocal %d %s (LSetRef 0 %d %d)", q.h, vPathTerm(q.p), tag, tag-3), name: "value-set-empty-container", writes: []int{q.h},
+					term := fmt.Sprintf("OLocal %d %s (LSetRef 0 %d %d)", q.h, vPathTerm(q.p), tag, tag-3)
+					if tag == 7 {
+						term = fmt.Sprintf("OLocal %d %s (LSetBytes 0)", q.h, vPathTerm(q.p))
+					}
+					return &vPlan{term: term, name: "value-set-empty-container", writes: []int{q.h},
 						run: func() {
 							switch tag {
 							case 5:
@@ -1102,7 +1106,7 @@ func (g *vProg) planAt(pos vPos, all []vPos) *vPlan {
 		case 6:
 			return &vPlan{term: loc(fmt.Sprintf("LSetRef %d 6 3", j)), name: "value-set-empty-container", writes: []int{h}, run: func() { v.SetEmptySlice() }}
 		default:
-			return &vPlan{term: loc(fmt.Sprintf("LSetRef %d 7 4", j)), name: "value-set-empty-container", writes: []int{h}, run: func() { v.SetEmptyBytes() }}
+			return &vPlan{term: loc(fmt.Sprintf("LSetBytes %d", j)), name: "value-set-empty-container", writes: []int{h}, run: func() { v.SetEmptyBytes() }}
 		}
 	case kPtr:
 		return nil
